@@ -831,9 +831,9 @@ def _canon(e):
             return _canon(("cast", e[2][0], m_.group(2)))       # u64::from(x), usize::from(x), char::from(b): lossless `as`
         if nm.endswith("Into<T>>::into") or nm.endswith("::into"):
             pass
-    if k == "call" and len(e[2]) == 2 and isinstance(e[1], str) and (e[1].endswith("Ord>::min") or e[1].endswith("::min") and e[1].startswith("core::num")):
+    if k == "call" and len(e[2]) == 2 and isinstance(e[1], str) and (e[1].endswith("Ord>::min") or e[1].endswith("cmp::Ord::min") or e[1].endswith("::min") and e[1].startswith("core::num")):
         return ("call", "core::cmp::min", e[2])
-    if k == "call" and len(e[2]) == 2 and isinstance(e[1], str) and (e[1].endswith("Ord>::max") or e[1].endswith("::max") and e[1].startswith("core::num")):
+    if k == "call" and len(e[2]) == 2 and isinstance(e[1], str) and (e[1].endswith("Ord>::max") or e[1].endswith("cmp::Ord::max") or e[1].endswith("::max") and e[1].startswith("core::num")):
         return ("call", "core::cmp::max", e[2])
     return e
 
